@@ -11,6 +11,9 @@ source; in derived-twice cases also the result of the preliminary resample) and 
 Clip / recording cases with a history (hist = mutate | rewrite | rewrite_len) use a file of their own: load, then edit the
 returned arrays in place or rewrite the file at the same path (N2 frames, values from base2), then load again; the SECOND load
 is what is encoded.
+Long arrays (kinds long / longclip: one 13e6-frame file written once per run) are not encoded coordinate by coordinate but by
+generic reductions of the axis (dtype, n, number of non-increasing pairs, first / last / step, exact maximum deviation from
+c_0 + i*step, a handful of sampled (i, c_i, value) triples).
 It computes no expected value and takes no decision.
 """
 from __future__ import annotations
@@ -52,10 +55,16 @@ _WAVDIR_ENV = "VERIF_C15_WAVDIR"
 _DEFAULT_WAVDIR = Path(__file__).resolve().parent.parent / ".work" / "C15_wav"
 
 
+LONG_FR, LONG_TE, LONG_N = 30001, (10, 1), 13_000_000      # nominal 300.01 kHz, 43.3 s: beyond 2^23 frames and beyond 32 s
+
+
 def prepare(work, tier, seed):
     d = Path(work) / "wav"
     d.mkdir(parents=True, exist_ok=True)
     os.environ[_WAVDIR_ENV] = str(d)          # inherited by the worker processes
+    p = _long_wav(LONG_FR, LONG_N)            # the long recording is written once per run (26 MB) and removed afterwards
+    import atexit
+    atexit.register(lambda: p.exists() and p.unlink())
 
 
 # ----------------------------------------------------------------------------- encoders (no verdicts)
@@ -157,6 +166,65 @@ def _wav(case) -> Path:
     return p
 
 
+def _long_wav(fr, n) -> Path:
+    """One channel, frame k holds k % 32749 + 1."""
+    p = _wavdir() / f"long_{fr}_{n}.wav"
+    if not p.exists():
+        tmp = p.with_name(p.name + f".{os.getpid()}.tmp")
+        sf.write(str(tmp), (np.arange(n, dtype=np.int64) % 32749 + 1).astype(np.int16), fr, subtype="PCM_16", format="WAV")
+        os.replace(tmp, p)
+    return p
+
+
+def _reductions(arr) -> dict:
+    """Generic reductions of the time axis of a long (time, channel) array; none of them knows an expected value."""
+    red = _blank()["red"]
+    c = arr.time.values
+    n = int(c.size)
+    step = arr.time.attrs.get("step")
+    red.update(dtype=str(c.dtype), n=n, step=[] if step is None else [_flimbs(step)])
+    if n == 0:
+        return red
+    c64 = c.astype(np.float64)                                   # exact for float32 / float64 coordinates
+    if not np.isfinite(c64).all():
+        red.update(c0=_NAN, last=_NAN, maxdev=_NAN, nonincr=n)
+        return red
+    red["nonincr"] = int((c64[1:] <= c64[:-1]).sum())
+    red["c0"], red["last"] = _flimbs(c64[0]), _flimbs(c64[-1])
+    if step is not None and math.isfinite(float(step)):
+        st = Fraction(float(step))
+        dev = np.abs(c64 - (c64[0] + np.arange(n) * float(step)))    # float evaluation locates the maximum ...
+        k = min(8, n)
+        cand = set(int(i) for i in np.argpartition(dev, n - k)[n - k:]) | {n - 1}
+        f0 = Fraction(float(c64[0]))
+        red["maxdev"] = _limbs(max(abs(Fraction(float(c64[i])) - f0 - i * st) for i in cand))   # ... Fraction evaluates it exactly there
+    vals = arr.values
+    for i in sorted({0, 1, n // 4, n // 2, 2**23 - 1, 2**23, 2**23 + 1, n - 2, n - 1}):
+        if 0 <= i < n:
+            q = Fraction(float(vals[i, 0])) * 32768
+            if q.denominator != 1:
+                raise ValueError(f"sample value {vals[i, 0]!r} is not a multiple of 1/32768")
+            red["samples"].append([i, _flimbs(c64[i]), int(q)])
+    return red
+
+
+def _long(case, out):
+    rec = data.Recording.from_file(_long_wav(case["fr"], case["N"]), time_expansion=case["te"][0] / case["te"][1], compute_hash=False)
+    try:
+        if case["kind"] == "long":
+            arr = load_recording(rec)
+        else:
+            clip = _clip(case, rec)
+            _flags(out, clip, rec.samplerate)
+            arr = load_clip(clip)
+    except Exception as ex:
+        out["raised"] = type(ex).__name__
+        return out
+    out["n"] = int(arr.sizes["time"])
+    out["red"] = _reductions(arr)
+    return out
+
+
 _HIST_SEQ = [0]
 
 
@@ -204,7 +272,8 @@ def _clip(case, rec):
 
 def _blank():
     return {"raised": "", "n": 0, "rows": [], "rec_rows": [], "bs": 0, "bd": 0, "src_ok": True, "src_n": 0, "axes": [],
-            "pre_raised": "", "reobs": [], "hist_raised": ""}
+            "pre_raised": "", "reobs": [], "hist_raised": "",
+            "red": {"dtype": "", "n": 0, "nonincr": 0, "c0": _limbs(0), "last": _limbs(0), "step": [], "maxdev": _limbs(0), "samples": []}}
 
 
 def _flags(out, clip, sr):
@@ -216,6 +285,8 @@ def _flags(out, clip, sr):
 def execute(case):
     warnings.simplefilter("ignore")
     out = _blank()
+    if case["kind"] in ("long", "longclip"):
+        return _long(case, out)
     if case.get("hist", "none") != "none":
         path, rec, keep = _history(case, out)
         try:
@@ -354,6 +425,12 @@ def _tdens(sr, rng):
 
 
 def random_cases(rng, tier):
+    # long arrays (too long for the enumerated lattice): the whole recording, and clips of it that start before and reach
+    # beyond frame 2^23 (off and on sample boundaries), one that reaches past the end of the file
+    yield _case("long", LONG_FR, LONG_TE, 128, 1, LONG_N, src="rec")
+    yield _case("longclip", LONG_FR, LONG_TE, 128, 1, LONG_N, 3560, 3640)
+    yield _case("longclip", LONG_FR, LONG_TE, 128, 1, LONG_N, 128 * rng.randrange(24, 28), 128 * 28 + rng.randrange(1, 700))
+    yield _case("longclip", LONG_FR, LONG_TE, 128, 1, LONG_N, 5530 + rng.randrange(0, 25), 5560)
     n_clip, n_spec, n_res, n_rec = (700, 150, 120, 40) if tier == "quick" else (6000, 1200, 900, 300)
     for _ in range(n_rec):
         fr, te = rng.choice(_RATES)
@@ -434,6 +511,8 @@ def nontrivial(o):
     r = o["out"]
     if r.get("raised", "x") != "":
         return False
+    if o["in"]["kind"] in ("long", "longclip"):
+        return r["n"] >= 2
     if o["in"]["kind"] == "clip":
         return r["n"] >= 1
     return bool(r["axes"]) and r["axes"][0]["n"] >= 2
@@ -462,7 +541,8 @@ MANIFEST = {
              "axis clauses (SourceUntouched/*, FirstResult/*; Impl action Reobserve, invariant ImplSourceTruthful). Clips and recordings "
              "are also loaded twice with an in-place edit of the first result or a rewrite of the file (other values, other length) in "
              "between; the second load is judged by the same clauses against the file as it then is (Impl: Between/Reload keeps no "
-             "state; the caching variant's counterexample is kept in spec/history)."),
+             "state; the caching variant's counterexample is kept in spec/history). A 13e6-frame recording (beyond 2^23 frames / 32 s) and "
+             "clips of it are judged by the same clauses on exact reductions of their axes."),
     "note": ("trusted: TLC, the binder checks/c15.py (encoder + exact Fraction reductions), soundfile's write path; bounded-exhaustive "
              "lattice + seeded random sampling; numerical values of resampled audio / STFT are not judged; resample's output length is "
              "not pinned by the statement and not judged"),
